@@ -134,6 +134,50 @@ SUMMARY3 = {
  "C20-F": ("Python PRM.setup() calls the callback once on the start state and propagates its exception / TypeError", "PRM with a callback failing on the start state or at its first call"),
 }
 
+# fourth round (fresh sub-agents, told the 120 ideas of rounds 1-3); stored as <ID>-G / <ID>-H
+SUMMARY4 = {
+ "C01-G": ("PRM::solve stops re-validating the start after one success; setup() resets the flag, set_problem_definition() does not", "setup, construct, solve (valid start), set_problem_definition(start marginally inside an obstacle), solve: path begins at a rejected state"),
+ "C01-H": ("RealVectorStateSpace::interpolate clamps its result to the bounds: motion checks validate the clamped point, the tree stores the unclamped target", "goal region sticking out of the bounds, checker rejecting out-of-bounds states, goal sample within one step of a node"),
+ "C02-G": ("PRM caches goal-milestone indices; setup() clears the cache, set_problem_definition() does not", "solve on P1, set_problem_definition(P2 with another goal), solve: path ends in P1's goal"),
+ "C02-H": ("RRT* shortcut for a sample at distance 0 from its nearest node reconstructs the path from tree.len()-1 instead of the nearest node", "fixed-state goal sampler and a repeated solve() after another node was appended"),
+ "C03-G": ("RRT-Connect extend() reports Reached with an existing node when the target is within 0.1 x step of the tree; the merge still drops 'the duplicate'", "connection with the other tree's nearest node within 10% of the step and step > L: unchecked junction segment"),
+ "C03-H": ("step count moved into the space (valid_segment_count); the compound override weights the distance but not the resolution", "compound-family space with motion-carrying weights below 0.1 and edges longer than L"),
+ "C04-G": ("SO2 interpolate uses raw to.value - from.value (as C15-E)", "start angle written two or more turns outside [-pi, pi)"),
+ "C04-H": ("RRT stores a private step at setup() and steers with it while the guard reads the public max_distance", "setup(), lower max_distance, solve(): samples near the boundary are overshot"),
+ "C05-G": ("RRT steer distance becomes max(max_distance, 0.1 L)", "step below 0.5% of the extent"),
+ "C05-H": ("PRM construct_roadmap links a milestone that ended up with no edge to its closest milestone without a radius test", "small connection radius relative to the spacing of early milestones"),
+ "C06-G": ("RealVector get_maximum_extent: unbounded test .any became .all, mixed bounded/unbounded boxes get an infinite extent and resolution", "R^n with some bounded and some unbounded coordinates: paths straight through a wall to a sealed goal"),
+ "C06-H": ("PRM construct_roadmap looks at the build-time clock only every 32nd sample", "any build time > 0: up to 31 samples drawn after the deadline"),
+ "C07-G": ("RRT::solve checks the deadline after drawing the sample: a timed-out solve has consumed one draw", "seeded RRT, a solve that times out, then another solve on the same instance"),
+ "C07-H": ("SO3 sample_uniform direct-sampling path for cones < pi/4 draws the axis from rand::rng()", "SO3 space bounded to a narrow cone"),
+ "C08-G": ("RRT-Connect goal-root re-draw no longer counts a failed draw as an attempt", "goal sampler that keeps failing once solve needs a new root: solve never returns"),
+ "C08-H": ("SO2StateSpace::new post-clamp check !(lo < hi) became lo > hi (as C11-B)", "interval touching [-pi, pi] in one point: accepted, first uniform draw panics"),
+ "C09-G": ("RealVector distance 1-D fast path returns v1 - v2 without abs()", "stand-alone 1-D space, state1 < state2"),
+ "C09-H": ("SO2 distance skips the wrap-around when the bounds span at most pi", "narrow SO2 bounds and non-canonical or out-of-bounds angles: d > pi"),
+ "C10-G": ("SO3 interpolate picks the hemisphere with a three-valued sgn(): sgn(0) = 0", "quaternion dot exactly 0 (rotations exactly half a turn apart): non-unit / zero result"),
+ "C10-H": ("Compound interpolate end-point shortcut clones from at t == 0 and to at t == 1", "non-canonical SO2 component at exactly t = 0 or 1: result not canonical"),
+ "C11-G": ("RealVector sample_uniform unbounded test !a || !b became !(a || b)", "half-bounded box (0, inf): sampling panics instead of UnboundedDimension"),
+ "C11-H": ("SO2State::wrap rounding guard shifted >= 2pi became > 2pi (dead)", "angle one ulp below -pi wraps to +pi"),
+ "C12-G": ("RealVectorStateSpace::new skips the ordering check for dimensions with an infinite end", "(inf, 0), (0, -inf), (inf, inf), (NaN, inf) accepted"),
+ "C12-H": ("SO3StateSpace::new radius clamp max_angle.min(PI) became if max_angle > PI", "NaN radius stored as NaN: sampling never returns"),
+ "C13-G": ("Compound satisfies_bounds skips components of weight 0", "weight exactly 0 and a state out of bounds only in that component"),
+ "C13-H": ("SE3StateSpace::enforce_bounds clamps only the translation", "SE(3) state with a non-unit or zero quaternion"),
+ "C14-G": ("R^n sample_uniform reuses a cached Uniform when only the lower bound matches the previous axis", "two consecutive axes with the same lower and different upper bounds"),
+ "C14-H": ("SO3 rejection loop capped at 100 000 rounds, then the last proposal is projected onto the cone", "cone of about 0.12 rad or less: atom at max_angle"),
+ "C15-G": ("RRT::setup seeds the tree with every start state; solve() validates only node 0", "two or more start states, a later one invalid"),
+ "C15-H": ("RRT-Connect extend() applies enforce_bounds to the new state after the motion check", "out-of-bounds target (goal region past the bounds, SO2 seam crossing)"),
+ "C16-G": ("RRT nearest_node_index initialised outside the iteration loop", "root nearest after an earlier iteration picked a non-root node: extension from the stale node"),
+ "C16-H": ("RRT* check_motion loses its num_steps <= 1 early return: a motion of distance exactly 0 is accepted with no query", "distinct states at distance 0 (zero-weight component) and an invalid sample"),
+ "C17-G": ("RRT* rewire loop uses the provisional cost via the nearest node instead of the final cost after choose-parent", "choose-parent picked a non-nearest parent and another neighbour is rewirable"),
+ "C17-H": ("RRT* neighbour list becomes a scratch buffer cleared at the end of each iteration; the goal-reached break skips the clear", "second solve() after a success without setup()"),
+ "C18-G": ("PRM set_problem_definition re-arms a needs_construction flag: construct_roadmap after it samples again", "setup, construct, set_problem_definition, construct: roadmap grows"),
+ "C18-H": ("PRM solve stops attaching the start after the first 8 connectable milestones", "more than 8 milestones connectable to the start, the useful one sampled later"),
+ "C19-G": ("Python ProblemDefinition.from_compound calls goal.sample_goal() once", "Compound variant and a stateful goal sampler"),
+ "C19-H": ("Python SO3StateSpace.distance returns 0.0 for identical / component-wise equal arguments", "distance of a state to itself where the core gives pi (zero quaternion) or ~3e-8"),
+ "C20-G": ("shared is_valid helper prints a report using err.traceback(py).expect(...)", "callback failing without a Python frame (wrong arity, non-callable, C callable): PanicException"),
+ "C20-H": ("exceptions outside the Exception hierarchy are restored as pending and re-raised after the planner returns", "callback raising KeyboardInterrupt / GeneratorExit / a BaseException subclass"),
+}
+
 # strengthened from the change description before the first run (so the first log already shows it caught)
 PRE_EMPTED = {
  "C10-F": "not run against the earlier check: reading the description showed that the reversal clause skipped exactly antipodal pairs, which the statement includes; the clause was extended first",
@@ -208,6 +252,11 @@ def main():
         res3 = parse_results(["/verif/seeded/logs/round3_quick_checks.txt", "/verif/seeded/logs/round3_after_strengthening.txt"])
         first3 = parse_results(["/verif/seeded/logs/round3_quick_checks.txt", "/verif/seeded/logs/round3_before_retune_widening.txt"])
         build(SUMMARY3, "/tmp/mut3", {"E": "A", "F": "B"}, res3, rows3, first3)
+    rows4 = []
+    if os.path.exists("/verif/seeded/logs/round4_quick_checks.txt"):
+        res4 = parse_results(["/verif/seeded/logs/round4_quick_checks.txt", "/verif/seeded/logs/round4_after_strengthening.txt"])
+        first4 = parse_results(["/verif/seeded/logs/round4_quick_checks.txt"])
+        build(SUMMARY4, "/tmp/mut4", {"G": "A", "H": "B"}, res4, rows4, first4)
     res = parse_results(["/verif/seeded/logs/quick_checks_final.txt", "/verif/seeded/logs/quick_checks_after_strengthening.txt"])
     rows = []
     for mid, (what, needs) in sorted(SUMMARY.items()):
@@ -243,7 +292,7 @@ def main():
         }
         json.dump(meta, open(f"{dst}/meta.json", "w"), indent=1)
         rows.append((mid, what, needs, caught, silent, other))
-    rows = sorted(rows + rows2 + rows3)
+    rows = sorted(rows + rows2 + rows3 + rows4)
     with open("/verif/seeded/SUMMARY.md", "w") as f:
         f.write("# Seeded changes written by sub-agents and the outcome of the quick checks\n\n")
         f.write("| id | change | needs | caught by (quick tier) | silent (run, not expected to fire unless listed first) |\n|---|---|---|---|---|\n")
